@@ -157,6 +157,69 @@ func e2eSequences(c *e2eCtx) error {
 			}
 		}
 	})
+	// directed sequences outside the alphabet: the sources are reverted by hand while the
+	// (untracked) generated package stays — clean must still remove it, and a second track must
+	// reproduce the first instrumentation
+	nDirected := 4
+	if c.thorough() {
+		nDirected = 24
+	}
+	c.parallel(nDirected, func(i int, r *rand.Rand) {
+		s, err := c.newScenario(2000+i, r, proj.Opts{InScope: true, SmallBody: true, RootMain: r.Intn(2) == 0}, func(r *rand.Rand, old string) proj.Config {
+			cfg := proj.DefaultConfig(old)
+			cfg.Granularity = pick(r, []string{"line", "patch", "scope", "func"})
+			cfg.Precision = pick(r, []int{1, 2, 3})
+			if i%2 == 1 {
+				cfg.Alias, cfg.PkgName, cfg.PkgPath = "gcov", "goat", "tools/goat"
+			}
+			return cfg
+		})
+		if err != nil {
+			return
+		}
+		defer os.RemoveAll(s.dir)
+		c.mu.Lock()
+		c.res.Evaluations++
+		c.mu.Unlock()
+		c.count("directed:track-checkout-clean-track")
+		rp := func() map[string]any { return s.replay(map[string]any{"sequence": "track, git checkout -- ., clean, track", "config_desc": s.desc}) }
+		t1 := proj.RunGoat(c.goat, s.dir, nil, "track")
+		if t1.Exit != 0 {
+			return // judged by the track e2e
+		}
+		first := proj.ReadTree(s.dir)
+		genRel := filepath.Join(s.cfg.PkgPath, "goat_generated.go")
+		if _, ok := first[genRel]; !ok {
+			return // nothing was instrumented
+		}
+		c.mu.Lock()
+		c.res.NonTrivial++
+		c.mu.Unlock()
+		proj.Git(s.dir, 0, "checkout", "-q", "--", ".")
+		cl := proj.RunGoat(c.goat, s.dir, nil, "clean")
+		if cl.Exit != 0 {
+			c.violate("C11,C06", fmt.Sprintf("after [track, git checkout -- .] goat clean exits %d: %s", cl.Exit, lastLine(cl.Stderr)), rp())
+			return
+		}
+		after := proj.ReadTree(s.dir)
+		if _, ok := after[genRel]; ok {
+			c.violate("C11,C06", "after [track, git checkout -- ., clean] the generated file is still there (every later goat track is refused as 'already patched')", rp())
+			return
+		}
+		if lf, ld := proj.Leftovers(s.dir, s.newTree, s.cfg.PkgPath, "goat.yaml"); len(lf)+len(ld) > 0 {
+			c.violate("C11,C06", fmt.Sprintf("after [track, git checkout -- ., clean] the tree holds files %v and directories %v the project did not have", lf, ld), rp())
+			return
+		}
+		t2 := proj.RunGoat(c.goat, s.dir, nil, "track")
+		if t2.Exit != 0 {
+			c.violate("C11", fmt.Sprintf("after [track, git checkout -- ., clean] a second goat track exits %d: %s", t2.Exit, lastLine(t2.Stderr)), rp())
+			return
+		}
+		second := proj.ReadTree(s.dir)
+		if d := diffTrees(first, second); len(d) > 0 {
+			c.violate("C11", fmt.Sprintf("track after clean does not reproduce the first instrumentation: %v", d[:min(3, len(d))]), rp())
+		}
+	})
 	return nil
 }
 
